@@ -98,6 +98,9 @@ type thread struct {
 	spinEpoch uint64
 	burn      int
 	writes    int
+	held      int // locks of the code under test this thread holds (lock model)
+	killSteps int // scheduling points passed after the run was over (see killYield)
+	exiting   bool
 	bounded   bool // the operation in progress must finish by itself (not a wait-forever call)
 	resWrite  bool
 	resOK     bool
@@ -289,7 +292,73 @@ func waitTurn(t int32) {
 		runtime.Gosched()
 	}
 	if s.kill {
+		th := &s.th[t]
+		if th.held > 0 && th.killSteps < killStepLimit && !th.exiting && th.pend != KLock && th.pend != KRLock {
+			// The run is over, but this thread is inside a critical section of the code
+			// under test.  An instance-level lock would not matter (the instance is dropped),
+			// a package-level one would stay locked for every later run of this process: the
+			// thread runs on, unsimulated, until it has released what it holds (unless it is
+			// parked in front of another lock acquisition, which would block for real).
+			th.killSteps++
+			killApply(th, th.pend, th.lock)
+			return
+		}
+		th.exiting = true
 		runtime.Goexit()
+	}
+}
+
+const killStepLimit = 200
+
+//go:norace
+func killApply(th *thread, k Kind, m *LockModel) {
+	switch k {
+	case KUnlock:
+		if m != nil {
+			m.Writer = 0
+		}
+		if th.held > 0 {
+			th.held--
+		}
+	case KRUnlock:
+		if m != nil && m.Readers > 0 {
+			m.Readers--
+		}
+		if th.held > 0 {
+			th.held--
+		}
+	}
+}
+
+// killYield is a scheduling point reached after the run was over (by a thread that still held
+// a lock, or by deferred calls of a thread that is exiting).
+//
+//go:norace
+func killYield(k Kind, m *LockModel) {
+	s := &S
+	if s.cur < 0 || int(s.cur) >= s.n {
+		return
+	}
+	th := &s.th[s.cur]
+	if th.exiting {
+		killApply(th, k, m)
+		return
+	}
+	if th.held == 0 || th.killSteps >= killStepLimit {
+		th.exiting = true
+		runtime.Goexit()
+	}
+	th.killSteps++
+	killApply(th, k, m)
+}
+
+// NoteLock: a lock shim acquired a lock outside the model (after the run was over).
+//
+//go:norace
+func NoteLock() {
+	s := &S
+	if s.active && s.kill && s.cur >= 0 && int(s.cur) < s.n {
+		s.th[s.cur].held++
 	}
 }
 
@@ -299,7 +368,11 @@ func waitTurn(t int32) {
 //go:norace
 func Yield(k Kind, addr unsafe.Pointer) {
 	s := &S
-	if !s.active || s.kill {
+	if !s.active {
+		return
+	}
+	if s.kill {
+		killYield(k, nil)
 		return
 	}
 	t := s.cur
@@ -313,7 +386,11 @@ func Yield(k Kind, addr unsafe.Pointer) {
 //go:norace
 func YieldLock(k Kind, m *LockModel) {
 	s := &S
-	if !s.active || s.kill {
+	if !s.active {
+		return
+	}
+	if s.kill {
+		killYield(k, m)
 		return
 	}
 	t := s.cur
@@ -328,6 +405,9 @@ func YieldLock(k Kind, m *LockModel) {
 //go:norace
 func YieldTimer(tm *Timer) (int64, bool) {
 	s := &S
+	if s.active && s.kill {
+		killYield(KTimerRecv, nil)
+	}
 	if !s.active || s.kill {
 		return s.clock, false
 	}
@@ -472,12 +552,14 @@ func TryAcquire(m *LockModel, write bool) bool {
 	if write {
 		if m.Writer == 0 && m.Readers == 0 {
 			m.Writer = s.cur + 1
+			s.th[s.cur].held++
 			return true
 		}
 		return false
 	}
 	if m.Writer == 0 {
 		m.Readers++
+		s.th[s.cur].held++
 		return true
 	}
 	return false
@@ -577,11 +659,19 @@ func threadMain(t int, body func(int)) {
 
 func threadExit(t int) {
 	if r := recover(); r != nil {
-		setPanic(t, fmt.Sprint(r), string(debug.Stack()))
+		_, lockHeld := r.(interface{ LockHeld() })
+		if !(lockHeld && killing()) {
+			// (a thread that ran on after the end of the run and met a lock another ended
+			// thread still holds is not a finding)
+			setPanic(t, fmt.Sprint(r), string(debug.Stack()))
+		}
 	}
 	joinWG.Done()
 	threadDone(t)
 }
+
+//go:norace
+func killing() bool { return S.kill }
 
 //go:norace
 func setPanic(t int, msg, stk string) {
@@ -710,13 +800,21 @@ func (s *Sim) dispatch(t int) {
 	switch k {
 	case KLock:
 		th.lock.Writer = int32(t) + 1
+		th.held++
 	case KRLock:
 		th.lock.Readers++
+		th.held++
 	case KUnlock:
 		th.lock.Writer = 0
+		if th.held > 0 {
+			th.held--
+		}
 	case KRUnlock:
 		if th.lock.Readers > 0 {
 			th.lock.Readers--
+		}
+		if th.held > 0 {
+			th.held--
 		}
 	case KGosched:
 		if th.spinEpoch == s.wEpoch {
